@@ -316,6 +316,47 @@ func runC04(w *World, r *Report) {
 			// R5 after firing: on the send branch
 			_ = par
 			var marks, removes bool
+			// the branch taken when the event was actually sent
+			var sentBlock *ssa.BasicBlock
+			eachInstr(fn, func(in ssa.Instruction) {
+				sel, isSel := in.(*ssa.Select)
+				if !isSel {
+					return
+				}
+				sendIdx := -1
+				for i, st := range sel.States {
+					if st.Dir == types.SendOnly {
+						sendIdx = i
+					}
+				}
+				if sendIdx < 0 {
+					return
+				}
+				idx := extractOfTuple(sel, 0)
+				for _, b := range fn.Blocks {
+					cond, t, _, isIf := ifSuccs(b)
+					if !isIf {
+						continue
+					}
+					if bo, isB := cond.(*ssa.BinOp); isB && bo.Op == token.EQL && bo.X == idx {
+						if c, isC := bo.Y.(*ssa.Const); isC && c.Value != nil && c.Int64() == int64(sendIdx) {
+							sentBlock = t
+						}
+					}
+				}
+				// a two-way select compiles its last case into the else edge
+				if sentBlock == nil && len(sel.States) == 2 {
+					for _, b := range fn.Blocks {
+						cond, _, f, isIf := ifSuccs(b)
+						if isIf {
+							if bo, isB := cond.(*ssa.BinOp); isB && bo.Op == token.EQL && bo.X == idx && sendIdx == 1 {
+								sentBlock = f
+							}
+						}
+					}
+				}
+			})
+			markedElsewhere := token.NoPos
 			eachInstr(fn, func(in ssa.Instruction) {
 				c, isC := in.(*ssa.Call)
 				if !isC {
@@ -328,6 +369,9 @@ func runC04(w *World, r *Report) {
 				}
 				if s.name == "Store" && (strings.HasSuffix(rp, ".droppedCollections") || strings.HasSuffix(rp, ".droppedPartitions")) {
 					marks = true
+					if sentBlock != nil && !(c.Block() == sentBlock || sentBlock.Dominates(c.Block())) {
+						markedElsewhere = c.Pos()
+					}
 				}
 				if (s.name == "stopReadChannel" || s.name == "RemovePartitionInfo") && loopHeaderOf(c.Block()) != nil {
 					removes = true
@@ -338,11 +382,75 @@ func runC04(w *World, r *Report) {
 				what = "droppedPartitions.Store + RemovePartitionInfo for every handler"
 			}
 			r.Check(marks, "C04-R5", cons+" | marked dropped", al.Pos(), "dropped set updated", "after the drop request was sent the object is not marked dropped: later data for it is still emitted")
+			if sentBlock != nil {
+				r.Check(markedElsewhere == token.NoPos, "C04-R5", cons+" | marked dropped only when the request was sent", al.Pos(), "the dropped set is updated on the sent branch only", "the object is marked dropped also when the barrier was closed without sending the request (task stopped): the per-target manager outlives the task, so after a resume the collection is skipped and its drop is never replayed")
+			}
 			r.Check(removes, "C04-R5", cons+" | cleaned up for every channel/handler", al.Pos(), what, "the object's streams / partition entries are not removed for every channel")
 		}
 	}
 	if nDrop < 4 {
 		r.Fail("C04-R2", "drop event literal census", 0, fmt.Sprintf("only %d drop event literals found (4 confirmed)", nDrop))
+	}
+
+	// ---------- R8 a partition dropped upstream is skipped only when the downstream does not have it
+	r.Rule("C04-R8", "a dropped partition is skipped only if the downstream does not have it", "in AddPartition the return taken because the source partition is Dropping/Dropped is inside the branch on which the downstream collection has no partition of that name; a partition that still exists downstream goes on to get its barrier and its synthetic drop message, so the drop is replayed after a restart", 1)
+	if ap := w.Func(pkgReader, "replicateChannelManager", "AddPartition"); ap == nil {
+		r.Undecided("C04-R8", "AddPartition", 0, "anchor not found")
+	} else {
+		// the comma-ok lookup in the downstream partition table and its not-found successor
+		var notFound *ssa.BasicBlock
+		eachInstr(ap, func(in ssa.Instruction) {
+			lk, ok := in.(*ssa.Lookup)
+			if !ok || !lk.CommaOk || !strings.HasSuffix(w.accessPath(lk.X), ".PartitionInfo") {
+				return
+			}
+			okv := extractOfTuple(lk, 1)
+			for _, b := range ap.Blocks {
+				cond, t, f, isIf := ifSuccs(b)
+				if !isIf {
+					continue
+				}
+				if cond == okv {
+					notFound = f
+				}
+				if u, isU := cond.(*ssa.UnOp); isU && u.Op == token.NOT && u.X == okv {
+					notFound = t
+				}
+			}
+		})
+		n := 0
+		for _, b := range ap.Blocks {
+			cond, t, _, isIf := ifSuccs(b)
+			if !isIf {
+				continue
+			}
+			bo, isB := cond.(*ssa.BinOp)
+			if !isB || bo.Op != token.EQL || !strings.HasSuffix(w.accessPath(bo.X), ".State") {
+				continue
+			}
+			c, isC := bo.Y.(*ssa.Const)
+			if !isC || c.Value == nil || (c.Int64() != 2 && c.Int64() != 3) {
+				continue
+			}
+			// does the true side return nil?
+			returns := false
+			for x := range blockReachIncl(t) {
+				if len(x.Instrs) > 0 {
+					if ret, isR := x.Instrs[len(x.Instrs)-1].(*ssa.Return); isR && (x == t || t.Dominates(x)) && len(ret.Results) == 1 && isNilConst(returnedValue(ret, 0)) {
+						returns = true
+					}
+				}
+			}
+			if !returns {
+				continue
+			}
+			n++
+			okScope := notFound != nil && (b == notFound || notFound.Dominates(b))
+			r.Check(okScope, "C04-R8", fmt.Sprintf("(*replicateChannelManager).AddPartition | skip of a dropped source partition #%d", n), b.Instrs[len(b.Instrs)-1].Pos(), "only when the downstream has no such partition", "a source partition in state Dropping/Dropped is skipped although the downstream may still have it: a partition dropped upstream while CDC was not running gets no barrier and no synthetic drop message, and its drop is never replayed")
+		}
+		if n == 0 {
+			r.Fail("C04-R8", "(*replicateChannelManager).AddPartition | skip of a dropped source partition", ap.Pos(), "no Dropping/Dropped state test with an early return found in AddPartition")
+		}
 	}
 
 	// ---------- R3 arity
@@ -372,4 +480,10 @@ func runC04(w *World, r *Report) {
 			r.Check(good, "C04-R3", cons, c.Pos(), "len("+src+")", "the barrier is sized by len("+src+"), a snapshot of the handlers that happen to be registered when the partition is added: with shards registering concurrently it can be smaller than the shard count, fire after one shard and leave the others without a partition barrier")
 		})
 	}
+}
+
+func blockReachIncl(b *ssa.BasicBlock) map[*ssa.BasicBlock]bool {
+	m := blockReach(b, nil)
+	m[b] = true
+	return m
 }
